@@ -6081,7 +6081,11 @@ class CodegenCtx:
         result.add(f"{self.program_name}_result_t {self.program_name}_feed({start_typename}start, const uint8_t *end, {self.program_name}_state_t *state) {{")
         with result as contents:
             if self._needs_end_check():
-                contents.add(f"if ({'*start' if ProgramData.do(ProgramFlag.INDIRECT_START_PTR) else 'start'} == end) return {self.program_name.upper()}_OK;")
+                empty_result = f"{self.program_name.upper()}_OK"
+                if self.generic_fail_state in self.dfa.states:
+                    # a parser that has failed keeps reporting it, also for empty input
+                    empty_result = f"(state->state == {self.dfa.states.index(self.generic_fail_state)}) ? {self.program_name.upper()}_FAIL : {self.program_name.upper()}_OK"
+                contents.add(f"if ({'*start' if ProgramData.do(ProgramFlag.INDIRECT_START_PTR) else 'start'} == end) return {empty_result};")
                 contents.add()
                 # Generate an explicit input check 
             # Generate the `inval` variable
